@@ -11,12 +11,14 @@ solver terms.
 
 Every solver call has a timeout; ``unknown`` raises ``Inconclusive`` (never success).
 """
+import os
 import time
 from fractions import Fraction
 
 import z3
 
 _CTX = None  # the active exploration context (one per process)
+_CROSS_N = [0]
 
 
 class Inconclusive(Exception):
@@ -596,6 +598,9 @@ class Context:
         self.lazy = []
         self.keep = []
         self.lazy_used = 0
+        self.cross_rate = int(os.environ.get("VERIF_CROSS_RATE", "0"))  # 0 = off; k = every k-th solver-discharged obligation
+        self.cross_n = 0
+        self.cross_smt2 = []
         self.cut_prefixes = []
         self.leftover = []
         self.violations = []  # filled by prove(): dicts with label, model
@@ -927,6 +932,7 @@ class Context:
             r = self._check(z3.Not(cond))
         if r == "unsat":
             self.stats.discharged += 1
+            self._record_cross(cond, False)
             return True
         if self.lazy or r == "unknown":
             # refine: add the definitions of the quotient / square-root variables and decide in
@@ -935,6 +941,7 @@ class Context:
             r = self._check_fresh(z3.Not(cond), *self.lazy)
             if r == "unsat":
                 self.stats.discharged += 1
+                self._record_cross(cond, True)
                 return True
         if r == "unknown":
             self.stats.unknown += 1
@@ -943,6 +950,20 @@ class Context:
         self.stats.violated += 1
         self.violations.append({"label": label, "model": m, "info": info})
         return False
+
+    def _record_cross(self, cond, with_lazy):
+        """keep the SMT-LIB2 text of every k-th solver-discharged obligation for the second solver"""
+        if not self.cross_rate:
+            return
+        _CROSS_N[0] += 1  # per process, across cases
+        if _CROSS_N[0] % self.cross_rate:
+            return
+        s = z3.Solver()
+        s.add(*self.pc)
+        if with_lazy:
+            s.add(*self.lazy)
+        s.add(z3.Not(cond))
+        self.cross_smt2.append(s.to_smt2())
 
     def model_of(self, *extra):
         fresh = None
@@ -1050,3 +1071,33 @@ def prove_equal(c, A, B, label, info=None):
     if not d:
         return c.prove(True, label, info)
     return c.prove(z3.Not(z3.Or(d)), label, info)
+
+
+def second_solver(texts, exe="/usr/bin/z3", timeout_s=20):
+    """re-decide obligations (SMT-LIB2 texts, expected unsat) with an independent solver binary.
+    Returns dict(checked, agree, unknown, disagree, errors)."""
+    import subprocess
+    import tempfile
+
+    out = {"checked": 0, "agree": 0, "unknown": 0, "disagree": 0, "errors": 0, "solver": exe}
+    for t in texts:
+        with tempfile.NamedTemporaryFile("w", suffix=".smt2", delete=False, dir="/root/scratch" if os.path.isdir("/root/scratch") else None) as f:
+            f.write(t)
+            path = f.name
+        try:
+            r = subprocess.run([exe, f"-T:{timeout_s}", path], capture_output=True, text=True, timeout=timeout_s + 10)
+            ans = r.stdout.strip().splitlines()[0] if r.stdout.strip() else ""
+            out["checked"] += 1
+            if "(error" in r.stdout:
+                out["errors"] += 1
+            elif ans == "unsat":
+                out["agree"] += 1
+            elif ans == "sat":
+                out["disagree"] += 1
+            else:
+                out["unknown"] += 1
+        except Exception:  # noqa
+            out["errors"] += 1
+        finally:
+            os.unlink(path)
+    return out
